@@ -58,4 +58,5 @@ f89ce52 C13 C10
 4c5f5c3 C13
 3f75171 C10
 bc0d713 C10
+9500a73 C14
 LIST
